@@ -93,7 +93,14 @@ def directed_libraries():
                 cls=[dict(name="Cls", params=[], ret=None, method=False, ctor=True),
                      dict(name="mq", params=[("int", False)], ret="int", method=True, ctor=False),
                      dict(name="mq", params=[("double", False), ("int", True)], ret="int", method=True, ctor=False)], idx=910)
-    return [same]
+    # an overload set whose members return different types, the one with default arguments first: every call form pushes the
+    # result of the overload it calls, with that overload's type
+    mixedret = dict(funcs=[dict(name="fz", params=[("double", False), ("double", True)], ret="double", method=False, ctor=False),
+                           dict(name="fz", params=[("string", False)], ret="int", method=False, ctor=False)],
+                    cls=[dict(name="Cls", params=[], ret=None, method=False, ctor=True),
+                         dict(name="mz", params=[("int", False), ("double", True), ("int", True)], ret="double", method=True, ctor=False),
+                         dict(name="mz", params=[("string", False), ("string", False)], ret="bool", method=True, ctor=False)], idx=911)
+    return [same, mixedret]
 
 
 DEFAULTS = {"int": "7", "long": "8", "double": "2.5", "bool": "true", "string": '"dflt"'}
